@@ -109,6 +109,7 @@ func runDeferredCase(c *dfCase, dir string) (string, string) {
 		}
 		w = deferred.NewDeferredCarWriterForPath(path, idsToCids(c.Roots), opts...)
 	}
+	defer func() { w.Close() }() // a history that does not end in close() would keep the path target's descriptor open
 	type fire struct{ id, n int }
 	var log []fire
 	observe := func() ([]byte, bool) {
@@ -290,8 +291,17 @@ func runDeferredReplay(args []string) int {
 						}
 					}()
 					cls, msg = runDeferredCase(&c, dir)
+					if cls != "" && isEnvFault(msg, dir) {
+						// the process ran out of descriptors (or the like): not an observation of go-car; once more after a collection
+						runtime.GC()
+						cls, msg = runDeferredCase(&c, dir)
+					}
 				}()
 				rep.eval(canon(c), true)
+				if cls != "" && isEnvFault(msg, dir) {
+					rep.inconclusive("environment fault in a deferred-writer case: " + msg)
+					cls = ""
+				}
 				if cls != "" {
 					var ops []string
 					for _, s := range c.Hist {
